@@ -60,6 +60,11 @@ CLAIMS["C12"] = dict(
    text="Decides structural necessary conditions of losslessness and refusal for every object and schema: symmetric, unconditional serialisation of every type in Zerv's closure; the rendered object always comes from Zerv::new whose Ok is dominated by a successful validate(); schema parts are written only by validating setters; validate cannot return Ok without the emptiness test and all three section validators, whose rejection guards cover the placement rules; the validator's accepted ts() patterns are resolvable. Byte-identical re-emission, pipe == direct and ron's own behaviour are not decided.",
    note="Trusted: rustc MIR of serde's derive expansion, zfacts, rules/c12.py. Assumes serde derive's visitor assigns each named field to the field of that name and ron is a faithful serde format.",
    ref="4/C12")
+CLAIMS["C05"] = dict(
+   technique="decision-table extraction by path enumeration with symbolic evaluation over MIR (dispatch tables, sibling processors, reset table), dominance ordering of phases, arithmetic-assert inventory",
+   text="Decides the structural clauses for every start version and flag combination at once: the default precedence constant, the 11-row level dispatch with same-name override/bump fields, agreement of the six numeric field processors (override sets, bump adds checked to old.unwrap_or(0) and then resets from its own level, writes only its own field), the reset table (strict >, numbers to 0, pre/post/dev to absent, no schema writes), index dispatch == name dispatch, rejection of all invalid targets, sorted specs, the phase order of to_zerv, and absence of unchecked bump arithmetic. The composed algebraic law on concrete values is not decided.",
+   note="Trusted: rustc MIR, zfacts, rules/c05.py + mir.SymPath.",
+   ref="4/C05")
 REASONS = {}
 
 def main():
